@@ -5,9 +5,11 @@
   only state is ghost history derived from the observations (which logged event lives in which file, at
   which byte range), the connectivity the operations imply and the topology of the harness:
 
-      zone master = { local, A }  ──  zone sat = { B }  ──  zone agent = { C }     zone zx ⊂ sat, zone g global
+      zone top = { E, F }  ──  zone master = { local, A }  ──  zone sat = { B, D }  ──  zone agent = { C }
+                                                                       zone zx ⊂ sat, zone g global
 
-  Peers 0 = A, 1 = B, 2 = C.  Security objects: 0 master, 1 sat, 2 agent, 3 zx, 4 g.
+  Peers 0 = A, 1 = B, 2 = C, 3 = D (B's sibling), 4 = E, 5 = F (the parent zone).  Security objects: 0 master, 1 sat,
+  2 agent, 3 zx, 4 g.
 -/
 import IcingaModel.C12.Model
 
@@ -32,7 +34,7 @@ inductive Ev
   | disc (p : Nat)
   | replay (now : Int) (p : Nat) (out : List OutObs) (dmg : Option Damage)   -- dmg: only during this replay (probe)
   | rotate (newFile : Option Int)                                            -- rotate / stop
-  | timer (now : Int) (deleted : List Int) (outs : List (List OutObs))       -- outs: what was queued for A, B, C
+  | timer (now : Int) (deleted : List Int) (outs : List (List OutObs))       -- outs: what was queued for each peer
   | ack (p : Nat) (v : Int)
   | recv (p : Nat) (ts : Int) (accepted : Bool)
   | damage (d : Damage)                                                      -- setbytes / crash k
@@ -40,7 +42,7 @@ inductive Ev
   | restart
   deriving Repr
 
-/-- An observed step: the event and the six positions lposA,rposA,lposB,rposB,lposC,rposC after it. -/
+/-- An observed step: the event and the twelve positions lpos,rpos of peers 0..5 after it. -/
 structure Step where
   ev : Ev
   pos : List Int
@@ -82,35 +84,44 @@ structure SpecSt where
   cur : List GEntry := []
   curSize : Nat := 0
   curTorn : Bool := false        -- a damaged tail precedes whatever is appended now
-  conn : List Bool := [false, false, false]
-  pos : List Int := [0, 0, 0, 0, 0, 0]
-  durs : List Int := [0, 0, 0]   -- log_duration in µs, negative = unlimited
+  conn : List Bool := [false, false, false, false, false, false]
+  pos : List Int := [0, 0, 0, 0, 0, 0, 0, 0, 0, 0, 0, 0]
+  durs : List Int := [0, 0, 0, 0, 0, 0]   -- log_duration in µs, negative = unlimited
   dropped : Bool := false
   deriving Repr
 
 def specInit (durs : List Int) : SpecSt := { durs := durs }
 
-/-- Endpoints in the same, the parent or an immediate child zone. -/
-def related (p : Nat) : Bool := p < 2
+/-- The peers of the harness topology. -/
+def allPeers : List Nat := [0, 1, 2, 3, 4, 5]
 
-/-- The directly related endpoints an event about `sec` is meant for (its zone and all parent zones, or
-    for a global zone the local zone and its immediate children). -/
-def targets (sec : Option Nat) : List Nat :=
+/-- Endpoints in the same, the parent or an immediate child zone (all but C in the grandchild zone). -/
+def related (p : Nat) : Bool := p < 6 && p != 2
+
+/-- The zones an event about `sec` is relayed to — its zone and all parent zones; for a global zone the local
+    zone and its immediate children — each with (is it the local zone, its endpoints other than the local node). -/
+def targetZones (sec : Option Nat) : List (Bool × List Nat) :=
   match sec with
-  | none => [0]
-  | some 0 => [0]
-  | _ => [0, 1]
+  | none => [(true, [0]), (false, [4, 5])]
+  | some 0 => [(true, [0]), (false, [4, 5])]
+  | some 4 => [(true, [0]), (false, [1, 3])]
+  | _ => [(false, [1, 3]), (true, [0]), (false, [4, 5])]
+
+/-- An event must be logged when one of its target zones could not be given it at all: none of the zone's endpoints
+    is connected.  (A zone one of whose endpoints is connected HAS the event; its other members get it inside the
+    zone.  In the local zone every member is addressed directly — there it is the single peer A.) -/
+def mustLog (conn : Nat → Bool) (sec : Option Nat) : Bool :=
+  (targetZones sec).any (fun z => z.2.all (fun p => !conn p))
 
 /-- May the zone of peer `p` see object `sec` (object's zone is the peer's zone or below it, or global)? -/
-def may(dropped : Bool) (p : Nat) (sec : Option Nat) : Bool :=
+def may (dropped : Bool) (p : Nat) (sec : Option Nat) : Bool :=
   match sec with
   | none => true
   | some o =>
     if o == 3 && dropped then false
-    else match p with
-      | 0 => o ≤ 4
-      | 1 => o == 1 || o == 2 || o == 3 || o == 4
-      | _ => o == 2 || o == 4
+    else if p == 0 || p == 4 || p == 5 then o ≤ 4            -- zones master and top: everything below them
+    else if p == 1 || p == 3 then o == 1 || o == 2 || o == 3 || o == 4
+    else o == 2 || o == 4
 
 def lpos (pos : List Int) (p : Nat) : Int := pos.getD (2 * p) 0
 def rpos (pos : List Int) (p : Nat) : Int := pos.getD (2 * p + 1) 0
@@ -181,8 +192,7 @@ def specStep (sp : SpecSt) (st : Step) : Option Clause × SpecSt :=
   let sp' := { sp with pos := st.pos }
   match st.ev with
   | .relay now id sec frameLen newFile =>
-    let mustLog := (targets sec).any (fun p => !(sp.conn.getD p false))
-    let bad := if mustLog && frameLen.isNone then some Clause.persisted else none
+    let bad := if mustLog (fun p => sp.conn.getD p false) sec && frameLen.isNone then some Clause.persisted else none
     let sp1 := match frameLen with
       | none => sp'
       | some n => { sp' with cur := sp'.cur ++ [⟨⟨now, id, sec⟩, sp'.curSize + n, !sp'.curTorn⟩], curSize := sp'.curSize + n }
@@ -201,7 +211,7 @@ def specStep (sp : SpecSt) (st : Step) : Option Clause × SpecSt :=
     | some nm => (none, { sp' with files := sp'.files ++ [⟨nm, sp'.cur⟩], cur := [], curSize := 0, curTorn := false })
   | .timer now deleted _ =>
     let gone := sp.files.filter (fun f => deleted.contains f.name)
-    let needed := gone.any (fun f => f.es.any (fun g => g.intact && [0, 1, 2].any (fun p =>
+    let needed := gone.any (fun f => f.es.any (fun g => g.intact && allPeers.any (fun p =>
       related p && decide (g.e.ts > lpos sp.pos p) &&
         !(decide (sp.durs.getD p 0 ≥ 0) && decide (g.e.ts < now - sp.durs.getD p 0)))))
     (if needed then some .cleanupSafe else none, { sp' with files := sp'.files.filter (fun f => !deleted.contains f.name) })
@@ -215,7 +225,7 @@ def specStep (sp : SpecSt) (st : Step) : Option Clause × SpecSt :=
     (bad, sp')
   | .damage d => (none, applyDamage d sp')
   | .drop => (none, { sp' with dropped := true })
-  | .restart => (none, { sp' with conn := [false, false, false] })
+  | .restart => (none, { sp' with conn := [false, false, false, false, false, false] })
 
 /-! ## confirmations (F-C12c)
 
@@ -252,7 +262,7 @@ def confirmStep (sp : SpecSt) (st : Step) : Option ConfirmBad :=
     else if beyond.all (fun v => (replayFileNames sp now).contains v) then some .replayFileName
     else some .other
   | .timer _ _ outs =>
-    if [0, 1, 2].any (fun p => (setPosValues (outs.getD p [])).any (fun v => decide (v > rpos sp.pos p))) then some .other
+    if allPeers.any (fun p => (setPosValues (outs.getD p [])).any (fun v => decide (v > rpos sp.pos p))) then some .other
     else none
   | _ => none
 
@@ -263,6 +273,30 @@ def confirmTrace : SpecSt → List Step → Nat → Option (Nat × ConfirmBad)
     match confirmStep sp st with
     | some k => some (i, k)
     | none => confirmTrace (specStep sp st).2 r (i + 1)
+
+/-! ## who may move an endpoint's local log position
+
+  `local_log_position` says up to where the peer needs nothing from our log any more.  It may grow only by the
+  peer's own confirmation, or to the timestamp of an event that reached the peer's zone while the peer itself was
+  CONNECTED (RelayMessageOne's skipped endpoints: a connected sibling, or the zone master, got the event).  Raising it
+  for a DISCONNECTED endpoint makes ReplayLog skip events that were persisted for it.  Evaluated on its own, like
+  the confirmation clause (positions and connectivity as they were before the step). -/
+
+/-- Clause `position_advance_justified` on one observed step: `false` = violated. -/
+def advanceOk (sp : SpecSt) (st : Step) : Bool :=
+  allPeers.all (fun p =>
+    let old := lpos sp.pos p
+    let new := lpos st.pos p
+    if new ≤ old then true
+    else match st.ev with
+      | .ack q v => q == p && new == v
+      | .relay now _ _ _ _ => sp.conn.getD p false && new == now
+      | _ => false)
+
+/-- The clause over a whole trace (ghost state advanced by `specStep`): index of the first failure. -/
+def advanceTrace : SpecSt → List Step → Nat → Option Nat
+  | _, [], _ => none
+  | sp, st :: r, i => if advanceOk sp st then advanceTrace (specStep sp st).2 r (i + 1) else some i
 
 /-- The whole trace: the first violated clause with the index of the step. -/
 def specTrace : SpecSt → List Step → Nat → Option (Nat × Clause)
